@@ -99,6 +99,9 @@ for fk in ("cc", "ss", "mc"):
     cfg("MC_sched_ma_%s.cfg" % fk, sched_consts(FieldAlpha="<- AlphaSchedMA", ArgOpts="<- ArgOptsMA", OpTypes='= {"mutation"}', Aliases='= {""}', MaxSel="= 3", WithFaults="= FALSE", **FLAGSETS[fk]), SCHED_INV, spec="SpecS")
 for fk in ("cc", "ms"):
     cfg("MC_sched_a_%s.cfg" % fk, sched_consts(FieldAlpha="<- AlphaSchedA", ArgOpts="<- ArgOptsFew", Aliases='= {"", "z"}', MaxSel="= 4", WithFaults="= FALSE", **FLAGSETS[fk]), SCHED_INV, spec="SpecS")
+# merged sub-selections that differ per runtime type (type-conditioned fragment under a list of an interface)
+for fk in ("cc", "ss"):
+    cfg("MC_sched_p_%s.cfg" % fk, sched_consts(FieldAlpha="<- AlphaSchedP", Aliases='= {""}', Conds='= {"A"}', MaxSel="= 6", MaxDepth="= 4", WithFaults="= FALSE", **FLAGSETS[fk]), SCHED_INV, spec="SpecS")
 cfg("MC_sched_live.cfg", sched_consts(FieldAlpha="<- AlphaSchedF", Aliases='= {""}', MaxSel="= 3", WithFaults="= TRUE", SeqFields="<- SomeFieldNames", LConc="= FALSE"), SCHED_R1, spec="FairSpecS", props=["Termination"], extra="VIEW NoHist")
 
 # ---- C15: several requests in flight ------------------------------------------------------
